@@ -137,6 +137,32 @@ def run(gen, seed, n_ops=60):
                 bump("sends_while_receiving")
                 compare("C10", "after split push")
                 continue
+            if op == "push" and subs and rnd.random() < 0.15:
+                # a subscriber that submits a command from inside its callback
+                import pyairtouch.api as api
+                sub = rnd.choice(subs)
+                fired = []
+
+                async def act(fired=fired):
+                    fired.append(loop.time())
+                    await w.at.air_conditioners[0].set_power(api.AcPowerControl.TURN_OFF)
+                sub.action = act
+                n0 = len(w.console.frames)
+                for _ in range(3):
+                    if fired:
+                        break
+                    await w.inject(c10.make_frame(gen, rnd, w, None, obs))
+                state["last_push"] = None
+                sub.action = None
+                if fired:
+                    got = [cmd["kind"] for (t, cc, f, cmd) in w.console.frames[n0:]
+                           if cmd["kind"] not in REQUEST_KINDS]
+                    if got != ["ac_control"]:
+                        v("C01", "command-submitted-inside-a-callback-not-sent-exactly-once",
+                          commands_seen=got)
+                    bump("commands_from_callbacks")
+                compare("C10", "after callback command")
+                continue
             if op == "push":
                 raw = (c10.one_field_frame(gen, rnd, w, obs) if rnd.random() < 0.3
                        else c10.make_frame(gen, rnd, w, None, obs))
